@@ -1213,7 +1213,10 @@ impl<'a> Gen<'a> {
                             cluster = vec!["\u{0995}\u{09CD}\u{09B7}".into()];
                         }
                         let reph_on = base.has(OLD_REPH);
-                        let with_reph = self.rng.pct(12) && has(fm::REPH);
+                        // (the reph key is outside the statement's syllable alphabet: it can
+                        // leave a dangling hasanta, after which a sign legitimately behaves
+                        // differently in the two orders)
+                        let with_reph = false;
                         let sign = self.rng.weighted(&[25, 35, 20, 10, 10]);
                         let chandra = self.rng.pct(12);
                         // Unicode order
